@@ -45,6 +45,9 @@ type vsK8s struct {
 	cached map[string]*daemon.PodInfo
 	// gate, if set, is called (without the lock) at the start of every GetPod
 	gate func(key string)
+	// existGate, if set, is called (without the lock) after PodExist has determined its
+	// answer and before it returns it (a slow API server: the answer may be stale)
+	existGate func(key string)
 }
 
 func vsNewK8s() *vsK8s {
@@ -96,12 +99,18 @@ func (k *vsK8s) GetPod(ctx context.Context, namespace, name string, cache bool) 
 
 func (k *vsK8s) PodExist(namespace, name string) (bool, error) {
 	k.mu.Lock()
-	defer k.mu.Unlock()
 	p := k.pods[vsKey(namespace, name)]
-	if p != nil && p.failAPI {
+	fail := p != nil && p.failAPI
+	ok := p != nil && p.exists
+	g := k.existGate
+	k.mu.Unlock()
+	if g != nil {
+		g(vsKey(namespace, name))
+	}
+	if fail {
 		return false, fmt.Errorf("api server unavailable")
 	}
-	return p != nil && p.exists, nil
+	return ok, nil
 }
 
 func (k *vsK8s) GetServiceCIDR() *types.IPNetSet                   { return &types.IPNetSet{} }
@@ -197,9 +206,80 @@ type vsPoolCfg struct {
 	Slots   int    `json:"slots"`      // empty secondary interface slots
 	PreENIs []int  `json:"pre,omitempty"` // pre-attached interfaces: number of IPv4 addresses each
 	Policy  string `json:"policy,omitempty"`
+	// FailRelease (C09): wrap the first interface so that Release can be made to fail once
+	FailRelease bool `json:"fail_release,omitempty"`
+}
+
+// vsFailNI wraps a pool interface and makes Release fail once for listed pods (a cleanup
+// step of GC that cannot proceed).
+type vsFailNI struct {
+	eni.NetworkInterface
+	mu       sync.Mutex
+	failOnce map[string]bool // pod id -> fail the next Release for it
+}
+
+func (f *vsFailNI) Release(ctx context.Context, cni *daemon.CNI, request eni.NetworkResource) (bool, error) {
+	f.mu.Lock()
+	fail := f.failOnce[cni.PodID]
+	if fail {
+		delete(f.failOnce, cni.PodID)
+	}
+	f.mu.Unlock()
+	if fail {
+		return false, fmt.Errorf("injected: release of %s cannot proceed", cni.PodID)
+	}
+	return f.NetworkInterface.Release(ctx, cni, request)
+}
+
+func (f *vsFailNI) Status() eni.Status {
+	if s, ok := f.NetworkInterface.(eni.ReportStatus); ok {
+		return s.Status()
+	}
+	return eni.Status{}
+}
+
+func (f *vsFailNI) Usage() (int, int, error) {
+	if u, ok := f.NetworkInterface.(eni.Usage); ok {
+		return u.Usage()
+	}
+	return 0, 0, nil
+}
+
+// vsFailNIShared: one per interface, consulting a shared fail list
+type vsFailNIShared struct {
+	eni.NetworkInterface
+	shared *vsFailNI
+}
+
+func (f *vsFailNIShared) Release(ctx context.Context, cni *daemon.CNI, request eni.NetworkResource) (bool, error) {
+	f.shared.mu.Lock()
+	fail := f.shared.failOnce[cni.PodID]
+	if fail {
+		delete(f.shared.failOnce, cni.PodID)
+	}
+	f.shared.mu.Unlock()
+	if fail {
+		return false, fmt.Errorf("injected: release of %s cannot proceed", cni.PodID)
+	}
+	return f.NetworkInterface.Release(ctx, cni, request)
+}
+
+func (f *vsFailNIShared) Status() eni.Status {
+	if s, ok := f.NetworkInterface.(eni.ReportStatus); ok {
+		return s.Status()
+	}
+	return eni.Status{}
+}
+
+func (f *vsFailNIShared) Usage() (int, int, error) {
+	if u, ok := f.NetworkInterface.(eni.Usage); ok {
+		return u.Usage()
+	}
+	return 0, 0, nil
 }
 
 type vsWorld struct {
+	failNI *vsFailNI // set when vsPoolCfg.FailRelease is used
 	cfg    vsPoolCfg
 	dir    string
 	dbPath string
@@ -272,6 +352,13 @@ func vsStart(cfg vsPoolCfg, cloud *cloudsim.Cloud, k *vsK8s, dir, dbPath string)
 		lo := eni.NewLocal(nil, "secondary", fac, pc)
 		w.locals = append(w.locals, lo)
 		nis = append(nis, lo)
+	}
+	if cfg.FailRelease && len(nis) > 0 {
+		// all interfaces sit behind one wrapper-per-interface sharing the fail list
+		w.failNI = &vsFailNI{failOnce: map[string]bool{}}
+		for i := range nis {
+			nis[i] = &vsFailNIShared{NetworkInterface: nis[i], shared: w.failNI}
+		}
 	}
 	mgr := eni.NewManager(cfg.MinIdle, cfg.MaxIdle, cfg.Cap*maxENI, 0, nis, daemon.EniSelectionPolicy(cfg.Policy), nil)
 	w.svc = &networkService{
